@@ -31,6 +31,7 @@ type world struct {
 	rcs      []*simRC
 	epoch    time.Time
 	closedAt time.Duration // when Client.Close() returned (-1: not closed)
+	dialStarts map[string]int // tier W: dials begun, per address (completed or not)
 	lateDial []string      // dials started after Close() returned and all calls returned
 	quiet    bool          // set once all API calls have returned
 	lateWork []string      // lookups / dials / requests started while quiet after Close
